@@ -114,11 +114,11 @@ Definition absent : code label := [Sil IExit].
 (* ---------- fixed code: CFGs ---------- *)
 
 (* program points of Channel.read *)
-Definition R_START := 0.  Definition R_CHECK := 1.  Definition R_LOCK := 2.  Definition R_IMPL := 3.
-Definition R_UNL_DATA := 4. Definition R_UNL_EMPTY := 5. Definition R_UNL_EOF := 6.
-Definition R_UNL_ERR := 7. Definition R_ENQ := 8. Definition R_CHECK2_EOF := 9.
-Definition R_CHECK2_ERR := 10. Definition R_SEND := 11. Definition R_SLEEP := 12.
-Definition R_DEFER := 13. Definition R_EXIT := 14.
+Definition R_CHECK := 0.  Definition R_LOCK := 1.  Definition R_IMPL := 2.
+Definition R_UNL_DATA := 3. Definition R_UNL_EMPTY := 4. Definition R_UNL_EOF := 5.
+Definition R_UNL_ERR := 6. Definition R_ENQ := 7. Definition R_CHECK2_EOF := 8.
+Definition R_CHECK2_ERR := 9. Definition R_SEND := 10. Definition R_SLEEP := 11.
+Definition R_DEFER := 12. Definition R_EXIT := 13.
 
 Definition impl_read_alts (tc : tcb) : list (list (var * nat) * list (var * nat) * pc) :=
   [ ([(V_TCLOSED, 0); (V_NET, NET_DATA)], [(V_NET, NET_QUIET)], R_UNL_DATA);
@@ -132,35 +132,34 @@ Definition impl_read_alts (tc : tcb) : list (list (var * nat) * list (var * nat)
   end.
 
 Definition reader_code (tc : tcb) : code label :=
-  [ (* 0 *) Sil (ISleep R_CHECK);
-    (* 1  select { case <-c.done: return; default: } *)
+  [ (* 0  select { case <-c.done: return; default: } *)
     Lb L_read_check_done (ISelect [(Rcv CH_DONE, R_DEFER)] (SDefault R_LOCK));
-    (* 2  c.t.Read() -> Transport.read: t.implLock.Lock() *)
+    (* 1  c.t.Read() -> Transport.read: t.implLock.Lock() *)
     Lb L_tread_lock (ILock V_IMPLLOCK R_IMPL);
-    (* 3  t.Impl.Read(n): blocks while the connection is quiet *)
+    (* 2  t.Impl.Read(n): blocks while the connection is quiet *)
     Lb L_tread_impl_read (IAtomic (impl_read_alts tc));
-    (* 4-7  deferred t.implLock.Unlock(); the result of the read is kept in the program point *)
+    (* 3-6  deferred t.implLock.Unlock(); the result of the read is kept in the program point *)
     Lb L_tread_unlock (IUnlock V_IMPLLOCK R_ENQ);
     Lb L_tread_unlock (IUnlock V_IMPLLOCK R_SLEEP);
     Lb L_tread_unlock (IUnlock V_IMPLLOCK R_CHECK2_EOF);
     Lb L_tread_unlock (IUnlock V_IMPLLOCK R_CHECK2_ERR);
-    (* 8  c.Q.Enqueue(b) *)
+    (* 7  c.Q.Enqueue(b) *)
     Lb L_read_enqueue (ISleep R_SLEEP);
-    (* 9  err == io.EOF: second done-check, then `return` either way *)
+    (* 8  err == io.EOF: second done-check, then `return` either way *)
     Lb L_read_check_done2 (ISelect [(Rcv CH_DONE, R_DEFER)] (SDefault R_DEFER));
-    (* 10 other error: second done-check *)
+    (* 9  other error: second done-check *)
     Lb L_read_check_done2 (ISelect [(Rcv CH_DONE, R_DEFER)] (SDefault R_SEND));
-    (* 11 select { case c.Errs <- err: ; case <-c.done: return } *)
+    (* 10 select { case c.Errs <- err: ; case <-c.done: return } *)
     Lb L_read_send_errs (ISelect [(Snd CH_ERRS, R_SLEEP); (Rcv CH_DONE, R_DEFER)] SBlock);
-    (* 12 time.Sleep(c.ReadDelay); continue *)
+    (* 11 time.Sleep(c.ReadDelay); continue *)
     Lb L_read_sleep (ISleep R_CHECK);
-    (* 13 deferred c.exitedOnce.Do(func() { close(c.exited) }) *)
+    (* 12 deferred c.exitedOnce.Do(func() { close(c.exited) }) *)
     Lb L_read_defer_exited (IOnceClose V_EXITEDONCE CH_EXITED R_EXIT);
-    (* 14 *) Sil IExit ].
+    (* 13 *) Sil IExit ].
 
 (* Channel.Close (CLI) / Driver.Close (NETCONF: close(d.done) once first) *)
-Definition C_RETURN_CLI := 7.
-Definition C_RETURN_NC := 8.
+Definition C_RETURN_CLI := 6.
+Definition C_RETURN_NC := 7.
 
 Definition closer_tail (b : nat) : code label :=
   [ (* b+0  c.doneOnce.Do(func() { close(c.done) }) *)
@@ -178,57 +177,52 @@ Definition closer_tail (b : nat) : code label :=
 
 Definition closer_code (netconf : bool) : code label :=
   if netconf then
-    [ Sil (ISleep 1);
-      (* d.doneOnce.Do(func() { close(d.done) }) *)
-      Lb L_nclose_done_once (IOnceClose V_NDONEONCE CH_NDONE 2) ] ++ closer_tail 2
-  else
-    [ Sil (ISleep 1) ] ++ closer_tail 1.
+    [ (* d.doneOnce.Do(func() { close(d.done) }) *)
+      Lb L_nclose_done_once (IOnceClose V_NDONEONCE CH_NDONE 1) ] ++ closer_tail 1
+  else closer_tail 0.
 
 Definition closer_return (netconf : bool) : pc := if netconf then C_RETURN_NC else C_RETURN_CLI.
 
 (* an operation in flight (ReadUntilPrompt & co.) polling Channel.Read *)
 Definition consumer_code : code label :=
-  [ (* 0 *) Sil (ISleep 1);
-    (* 1  select { case <-ctx.Done(): return nil, ctx.Err(); default: } -- may expire any time *)
-    Lb L_op_ctx_check (IEnv [6; 2]);
-    (* 2  Channel.Read: select { case err := <-c.Errs: return nil, err; default: } *)
-    Lb L_chread_errs (ISelect [(Rcv CH_ERRS, 6)] (SDefault 3));
-    (* 3  select { case <-c.exited: return nil, ErrConnectionError; default: } *)
-    Lb L_chread_exited (ISelect [(Rcv CH_EXITED, 6)] (SDefault 4));
-    (* 4  b := c.Q.Dequeue(): nil (sleep) / data, pattern not yet seen (loop) / seen (return) *)
-    Lb L_chread_dequeue (IEnv [5; 1; 6]);
-    (* 5  time.Sleep(c.ReadDelay); continue *)
-    Lb L_op_sleep (ISleep 1);
-    (* 6 *) Lb L_op_return IExit ].
+  [ (* 0  select { case <-ctx.Done(): return nil, ctx.Err(); default: } -- may expire any time *)
+    Lb L_op_ctx_check (IEnv [5; 1]);
+    (* 1  Channel.Read: select { case err := <-c.Errs: return nil, err; default: } *)
+    Lb L_chread_errs (ISelect [(Rcv CH_ERRS, 5)] (SDefault 2));
+    (* 2  select { case <-c.exited: return nil, ErrConnectionError; default: } *)
+    Lb L_chread_exited (ISelect [(Rcv CH_EXITED, 5)] (SDefault 3));
+    (* 3  b := c.Q.Dequeue(): nil (sleep) / data, pattern not yet seen (loop) / seen (return) *)
+    Lb L_chread_dequeue (IEnv [4; 0; 5]);
+    (* 4  time.Sleep(c.ReadDelay); continue *)
+    Lb L_op_sleep (ISleep 0);
+    (* 5 *) Lb L_op_return IExit ].
 
 (* netconf Driver.read *)
-Definition N_SEND := 5.
-Definition N_EXIT := 7.
+Definition N_SEND := 4.
+Definition N_EXIT := 6.
 Definition ncreader_code : code label :=
-  [ (* 0 *) Sil (ISleep 1);
-    (* 1  select { case <-d.done: return; default: } *)
-    Lb L_ncread_check_done (ISelect [(Rcv CH_NDONE, N_EXIT)] (SDefault 2));
-    (* 2-4  rb, err := d.Channel.Read() *)
-    Lb L_chread_errs (ISelect [(Rcv CH_ERRS, N_SEND)] (SDefault 3));
-    Lb L_chread_exited (ISelect [(Rcv CH_EXITED, N_SEND)] (SDefault 4));
-    Lb L_chread_dequeue (ISleep 6);
-    (* 5  select { case d.errs <- err: ; case <-d.done: return } *)
-    Lb L_ncread_send_errs (ISelect [(Snd CH_NERRS, 6); (Rcv CH_NDONE, N_EXIT)] SBlock);
-    (* 6  time.Sleep(d.Channel.ReadDelay) *)
-    Lb L_ncread_sleep (ISleep 1);
-    (* 7 *) Sil IExit ].
+  [ (* 0  select { case <-d.done: return; default: } *)
+    Lb L_ncread_check_done (ISelect [(Rcv CH_NDONE, N_EXIT)] (SDefault 1));
+    (* 1-3  rb, err := d.Channel.Read() *)
+    Lb L_chread_errs (ISelect [(Rcv CH_ERRS, N_SEND)] (SDefault 2));
+    Lb L_chread_exited (ISelect [(Rcv CH_EXITED, N_SEND)] (SDefault 3));
+    Lb L_chread_dequeue (ISleep 5);
+    (* 4  select { case d.errs <- err: ; case <-d.done: return } *)
+    Lb L_ncread_send_errs (ISelect [(Snd CH_NERRS, 5); (Rcv CH_NDONE, N_EXIT)] SBlock);
+    (* 5  time.Sleep(d.Channel.ReadDelay) *)
+    Lb L_ncread_sleep (ISleep 0);
+    (* 6 *) Sil IExit ].
 
 (* sendRPC after the write: spawn the poller, wait, deferred cancel() *)
 Definition T_POLLER : tid := 6.
 Definition rpc_code : code label :=
-  [ (* 0 *) Sil (ISleep 1);
-    (* 1  go func() { defer close(done); ... }() *)
-    Lb L_rpc_go_poller (IGo T_POLLER 2);
-    (* 2  select { case err = <-d.errs: ; case <-timer.C: ; case data := <-done: } *)
-    Lb L_rpc_select (ISelect [(Rcv CH_NERRS, 3); (Rcv CH_RDONE, 3)] (STimer 3));
-    (* 3  deferred cancel() *)
-    Lb L_rpc_cancel (IAtomicWrite V_CTX 1 4);
-    (* 4 *) Lb L_op_return IExit ].
+  [ (* 0  go func() { defer close(done); ... }() *)
+    Lb L_rpc_go_poller (IGo T_POLLER 1);
+    (* 1  select { case err = <-d.errs: ; case <-timer.C: ; case data := <-done: } *)
+    Lb L_rpc_select (ISelect [(Rcv CH_NERRS, 2); (Rcv CH_RDONE, 2)] (STimer 2));
+    (* 2  deferred cancel() *)
+    Lb L_rpc_cancel (IAtomicWrite V_CTX 1 3);
+    (* 3 *) Lb L_op_return IExit ].
 
 Definition P_SEND := 4.
 Definition poller_code : code label :=
@@ -297,7 +291,7 @@ Definition reader_pc0 (st : cstate) : pc :=
   | StBlocked | StDataArriving | StErrorArriving | StEOFArriving => R_IMPL
   | StEOF => R_EXIT
   | StIOErr => R_SEND
-  | StAny => R_START
+  | StAny => R_CHECK
   end.
 
 Definition ncreader_pc0 (st : cstate) : pc :=
@@ -383,8 +377,7 @@ Definition OV_FLAG : var := 1.      (* Channel.readLoopExited: a plain bool *)
 Definition old_impl_read_alts (tc : tcb) := impl_read_alts tc.
 
 Definition old_reader_code (tc : tcb) : code label :=
-  [ Sil (ISleep R_CHECK);
-    Lb L_read_check_done (ISelect [(Rcv OCH_DONE, R_DEFER)] (SDefault R_LOCK));
+  [ Lb L_read_check_done (ISelect [(Rcv OCH_DONE, R_DEFER)] (SDefault R_LOCK));
     Lb L_tread_lock (ILock OV_IMPLLOCK R_IMPL);
     Lb L_tread_impl_read (IAtomic (old_impl_read_alts tc));
     Lb L_tread_unlock (IUnlock OV_IMPLLOCK R_ENQ);
@@ -394,14 +387,13 @@ Definition old_reader_code (tc : tcb) : code label :=
     Lb L_read_enqueue (ISleep R_SLEEP);
     Lb L_read_check_done2 (ISelect [(Rcv OCH_DONE, R_DEFER)] (SDefault R_DEFER));
     Lb L_read_check_done2 (ISelect [(Rcv OCH_DONE, R_DEFER)] (SDefault R_SEND));
-    (* 11 c.Errs <- err *)
+    (* 10 c.Errs <- err *)
     Lb L_oread_send_errs (ISend OCH_ERRS R_SLEEP);
     Lb L_read_sleep (ISleep R_CHECK);
-    (* 13 deferred c.readLoopExited = true *)
+    (* 12 deferred c.readLoopExited = true *)
     Lb L_oread_defer_flag (IPlainWrite OV_FLAG 1 R_EXIT);
     Sil IExit ].
 
-Definition OC_SEND_NDONE := 1.
 Definition old_closer_tail (b : nat) (ch : chan) (sender : tid) : code label :=
   [ (* b+0  close(c.Errs) *)
     Lb L_oclose_close_errs (IClose OCH_ERRS (b + 1));
@@ -421,10 +413,9 @@ Definition old_closer_tail (b : nat) (ch : chan) (sender : tid) : code label :=
 
 Definition old_closer_code (netconf : bool) (ch : chan) (sender : tid) : code label :=
   if netconf then
-    [ Sil (ISleep 1);
-      (* d.done <- true *)
-      Lb L_onclose_send_done (ISend OCH_NDONE 2) ] ++ old_closer_tail 2 ch sender
-  else [ Sil (ISleep 1) ] ++ old_closer_tail 1 ch sender.
+    [ (* d.done <- true *)
+      Lb L_onclose_send_done (ISend OCH_NDONE 1) ] ++ old_closer_tail 1 ch sender
+  else old_closer_tail 0 ch sender.
 
 Definition old_sender_code (ch : chan) : code label :=
   [ Sil IIdle;
@@ -435,24 +426,22 @@ Definition old_sender_code (ch : chan) : code label :=
     Sil IExit ].
 
 Definition old_consumer_code : code label :=
-  [ Sil (ISleep 1);
-    Lb L_op_ctx_check (IEnv [6; 2]);
-    Lb L_chread_errs (ISelect [(Rcv OCH_ERRS, 6)] (SDefault 3));
+  [ Lb L_op_ctx_check (IEnv [5; 1]);
+    Lb L_chread_errs (ISelect [(Rcv OCH_ERRS, 5)] (SDefault 2));
     (* if c.readLoopExited { return nil, ErrConnectionError } *)
-    Lb L_ochread_read_flag (IPlainRead OV_FLAG [4; 6]);
-    Lb L_chread_dequeue (IEnv [5; 1; 6]);
-    Lb L_op_sleep (ISleep 1);
+    Lb L_ochread_read_flag (IPlainRead OV_FLAG [3; 5]);
+    Lb L_chread_dequeue (IEnv [4; 0; 5]);
+    Lb L_op_sleep (ISleep 0);
     Lb L_op_return IExit ].
 
 Definition old_ncreader_code : code label :=
-  [ Sil (ISleep 1);
-    Lb L_ncread_check_done (ISelect [(Rcv OCH_NDONE, 7)] (SDefault 2));
-    Lb L_chread_errs (ISelect [(Rcv OCH_ERRS, N_SEND)] (SDefault 3));
-    Lb L_ochread_read_flag (IPlainRead OV_FLAG [4; N_SEND]);
-    Lb L_chread_dequeue (ISleep 6);
-    (* 5  d.errs <- err *)
-    Lb L_oncread_send_errs (ISend OCH_NERRS 6);
-    Lb L_ncread_sleep (ISleep 1);
+  [ Lb L_ncread_check_done (ISelect [(Rcv OCH_NDONE, N_EXIT)] (SDefault 1));
+    Lb L_chread_errs (ISelect [(Rcv OCH_ERRS, N_SEND)] (SDefault 2));
+    Lb L_ochread_read_flag (IPlainRead OV_FLAG [3; N_SEND]);
+    Lb L_chread_dequeue (ISleep 5);
+    (* 4  d.errs <- err *)
+    Lb L_oncread_send_errs (ISend OCH_NERRS 5);
+    Lb L_ncread_sleep (ISleep 0);
     Sil IExit ].
 
 Definition T_SENDER1 : tid := 5.
@@ -477,6 +466,6 @@ Definition old_sys_of (sc : scenario) : sys label :=
        [ lock0 st; old_flag0 st; 0; 0; net0 st; 0; 0 ]
        0).
 
-Definition old_closer_return (netconf : bool) : pc := if netconf then 11 else 10.
+Definition old_closer_return (netconf : bool) : pc := if netconf then 10 else 9.
 Definition old_closers_returned (sc : scenario) (s : state) : bool :=
   exited_at (old_sys_of sc) s T_CLOSER1 && exited_at (old_sys_of sc) s T_CLOSER2.
